@@ -219,6 +219,22 @@ static void run_strings(int items,int nrandom)
 		for(int i=0;i<len;i++) { int t=(*R)(NITEMS); if(i+1<len && t==31) t=0; b+=item(t); how+=item_names[t]; how+=' '; }
 		string_doc(b,how.c_str());
 	}
+	// surrogate escapes with something in between / around them: every sequence of up to 3 (quick) or 4 items over a
+	// sub-alphabet of half pairs, simple escapes, ordinary escapes and plain characters - a pending first half must
+	// survive nothing but its own second half ("\ud834\n\udd1e" is not a pair)
+	{
+		static const int sub[]={24,26,25,27,15,17,16,32,35,18,0,5,20,37};   // hi lo hi2 lo2 \n \\ \" \t \b \/ a c3 u41 sur-ok
+		const int NS=sizeof(sub)/sizeof(sub[0]);
+		int maxlen = items>=3 ? 4 : 3;
+		for(int len=3;len<=maxlen;len++) {
+			long total=1; for(int i=0;i<len;i++) total*=NS;
+			for(long code=0;code<total;code++) {
+				std::string b,how("sur: "); long c=code; bool any=false;
+				for(int i=0;i<len;i++) { int t=sub[c%NS]; c/=NS; any = any || (t>=24 && t<=27); b+=item(t); how+=item_names[t]; how+=' '; }
+				if(any) string_doc(b,how.c_str());
+			}
+		}
+	}
 	// every single byte inside a string, and after a backslash
 	for(int c=0;c<256;c++) {
 		string_doc(std::string(1,char(c)),"byte");
